@@ -4,6 +4,7 @@ Property theorems only; helper lemmas live in XrayProofs.
 `Correct r v` : the operation succeeded (no panic) with a canonical representation denoting `v`.
 -/
 import XrayProofs.LazyInt
+import XrayProofs.IntArith
 namespace XrayModel.C14
 open XrayModel LB
 
@@ -41,5 +42,185 @@ theorem cmp_spec (a b : LB) (ha : a.wf) (hb : b.wf) : LB.cmp a b = compare a.den
   unfold LB.cmp
   cases a <;> cases b <;> lb_norm <;> (try split) <;> (try rfl) <;>
     (symm; first | (rw [Int.compare_eq_lt]; omega) | (rw [Int.compare_eq_gt]; omega))
+
+/-! ### multiplication, absolute value, sign -/
+
+/-- multiplication is exact and canonical in all four representation combinations
+(`Long * Long` never fits 64 bits, `Long * Short` can: `2^63 * -1`) -/
+theorem mul_correct (a b : LB) (ha : a.wf) (hb : b.wf) : Correct (LB.mul a b) (a.den * b.den) := by
+  unfold LB.mul
+  cases a <;> cases b <;> lb_norm <;> (repeat' split) <;> lb_norm
+  all_goals first
+    | omega
+    | exact Arith.mul_big _ _ ha hb
+    | exact Int.mul_comm _ _
+    | (rename_i h; rcases h with h | h <;> first | exact h.elim | simp [h])
+
+/-- in-place multiplication (used by `binom`, `multinom`) agrees with multiplication -/
+theorem mulAssign_correct (a b : LB) (ha : a.wf) (hb : b.wf) :
+    Correct (LB.mulAssign a b) (a.den * b.den) := by
+  unfold LB.mulAssign
+  split
+  · subst_vars; rw [correct_ok]; exact ⟨ha, by simp [LB.den]⟩
+  · have := mul_correct a b ha hb
+    cases a <;> cases b <;> simp only [] <;> (try split) <;>
+      first | exact this | (lb_norm; first | omega | exact Arith.mul_big _ _ ha hb)
+
+/-- absolute value, including `abs(-2^63)` which leaves the small representation -/
+theorem abs_correct (a : LB) (ha : a.wf) : Correct (LB.abs a) (a.den.natAbs : Int) := by
+  unfold LB.abs
+  cases a <;> lb_norm <;> (repeat' split) <;> (try lb_norm) <;> omega
+
+/-- `signum` is the sign, as a small integer -/
+theorem signum_spec (a : LB) : (LB.signum a).wf ∧ (LB.signum a).den = a.den.sign := by
+  cases a <;> simp only [LB.signum, wf_short, den_short, den_long, and_true] <;>
+    (rename_i v; rcases Int.lt_trichotomy v 0 with h | h | h)
+  all_goals first
+    | (have := Int.sign_eq_neg_one_iff_neg.mpr h; omega)
+    | (subst h; simp)
+    | (have := Int.sign_eq_one_iff_pos.mpr h; omega)
+
+/-! ### remainder and the three integer divisions (`LazyBigint` level; a zero divisor is the caller's guard) -/
+
+set_option linter.unusedSimpArgs false in
+/-- `%` on `LazyBigint` is the truncated remainder -/
+theorem rem_correct (a b : LB) (ha : a.wf) (hb : b.wf) (h0 : b.den ≠ 0) :
+    Correct (LB.rem a b) (Int.tmod a.den b.den) := by
+  unfold LB.rem
+  cases a <;> cases b <;> lb_norm <;> (repeat' split) <;> (try lb_norm)
+  all_goals first
+    | omega
+    | exact Arith.tmod_fits _ _ hb h0
+    | (rename_i h; subst h; rw [Int.zero_tmod]; omega)
+    | (rename_i h; rcases h with h | h <;> subst h <;> simp [Int.tmod_one, Arith.tmod_neg_one])
+
+/-- `/` on `LazyBigint` is the truncated quotient (incl. `-2^63 / -1 = 2^63`) -/
+theorem div_correct (a b : LB) (ha : a.wf) (hb : b.wf) (h0 : b.den ≠ 0) :
+    Correct (LB.div a b) (Int.tdiv a.den b.den) := by
+  unfold LB.div LB.neg
+  cases a <;> cases b <;> lb_norm <;> (repeat' split) <;> (try lb_norm)
+  all_goals first
+    | omega
+    | (subst_vars; rw [Arith.tdiv_neg_one]; omega)
+    | exact Arith.tdiv_fits _ _ ha h0 (by assumption)
+
+/-- `div_floor` is the floored quotient -/
+theorem divFloor_correct (a b : LB) (ha : a.wf) (hb : b.wf) (h0 : b.den ≠ 0) :
+    Correct (LB.divFloor a b) (Int.fdiv a.den b.den) := by
+  unfold LB.divFloor LB.neg
+  cases a <;> cases b <;> lb_norm <;> (repeat' split) <;> (try lb_norm)
+  all_goals first
+    | omega
+    | (subst_vars; rw [Arith.fdiv_neg_one]; omega)
+    | exact Arith.fdiv_fits _ _ ha h0 (by assumption)
+
+/-- `div_ceil` is the ceiling quotient: the unique `q` with `a = q*b - r`, `r` between `0` and `b` -/
+theorem divCeil_correct (a b : LB) (ha : a.wf) (hb : b.wf) (h0 : b.den ≠ 0) :
+    ∃ q, Correct (LB.divCeil a b) q ∧
+      ∃ r, a.den = q * b.den - r ∧ (0 < b.den → 0 ≤ r ∧ r < b.den) ∧ (b.den < 0 → b.den < r ∧ r ≤ 0) := by
+  refine ⟨LB.cdiv a.den b.den, ?_, Arith.cdiv_char a.den b.den h0⟩
+  unfold LB.divCeil LB.neg LB.cdiv
+  cases a <;> cases b <;> lb_norm <;> (repeat' split) <;> (try lb_norm)
+  all_goals first
+    | omega
+    | (subst_vars; rw [Arith.cdiv_neg_one]; omega)
+    | exact Arith.cdiv_fits _ _ ha h0 (by assumption)
+
+/-- the floored quotient is characterised the same way: `a = q*b + r`, `r` between `0` and `b` -/
+theorem divFloor_char (a b : LB) (ha : a.wf) (hb : b.wf) (h0 : b.den ≠ 0) :
+    ∃ q, Correct (LB.divFloor a b) q ∧
+      ∃ r, a.den = q * b.den + r ∧ (0 < b.den → 0 ≤ r ∧ r < b.den) ∧ (b.den < 0 → b.den < r ∧ r ≤ 0) :=
+  ⟨_, divFloor_correct a b ha hb h0, Arith.fdiv_char a.den b.den h0⟩
+
+/-! ### the builtin layer (`int.rs`): guards give error *values*, never panics -/
+
+/-- `a % b` of the language is the floored modulo (sign of the divisor), for every nonzero divisor -/
+theorem mod_floored (a b : LB) (ha : a.wf) (hb : b.wf) (h0 : b.den ≠ 0) :
+    ∃ r, IntB.mod a b = .int r ∧ r.wf ∧ r.den = Int.fmod a.den b.den := by
+  unfold IntB.mod
+  have hz : LB.isZero b = false := (isZero_false_iff b hb).mpr h0
+  obtain ⟨r, hr, hrw, hrd⟩ := rem_correct a b ha hb h0
+  simp only [hz, Bool.false_eq_true, if_false, hr]
+  rw [Arith.fmod_of_tmod, ← hrd]
+  have hzr : (!LB.isZero r) = true ↔ r.den ≠ 0 := by
+    rw [Bool.not_eq_true', isZero_false_iff r hrw]
+  simp only [Bool.and_eq_true, hzr, LB.isNegative]
+  split
+  · obtain ⟨s, hs, hsw, hsd⟩ := add_correct r b hrw hb
+    exact ⟨s, by rw [hs]; rfl, hsw, hsd⟩
+  · exact ⟨r, rfl, hrw, rfl⟩
+
+theorem mod_by_zero (a b : LB) (hb : b.wf) (h0 : b.den = 0) : IntB.mod a b = .err "Modulo by zero" := by
+  unfold IntB.mod; rw [if_pos ((isZero_iff b hb).mpr h0)]
+
+theorem divFloor_by_zero (a b : LB) (hb : b.wf) (h0 : b.den = 0) :
+    IntB.divFloor a b = .err "Division by zero" := by
+  unfold IntB.divFloor; rw [if_pos ((isZero_iff b hb).mpr h0)]
+
+theorem divCeil_by_zero (a b : LB) (hb : b.wf) (h0 : b.den = 0) :
+    IntB.divCeil a b = .err "Division by zero" := by
+  unfold IntB.divCeil; rw [if_pos ((isZero_iff b hb).mpr h0)]
+
+/-- builtin `div_floor` with a nonzero divisor: a value, exact and canonical -/
+theorem divFloor_builtin (a b : LB) (ha : a.wf) (hb : b.wf) (h0 : b.den ≠ 0) :
+    ∃ r, IntB.divFloor a b = .int r ∧ r.wf ∧ r.den = Int.fdiv a.den b.den := by
+  obtain ⟨r, hr, hw, hd⟩ := divFloor_correct a b ha hb h0
+  refine ⟨r, ?_, hw, hd⟩
+  unfold IntB.divFloor; rw [(isZero_false_iff b hb).mpr h0, hr]; rfl
+
+/-- the model's fast exponentiation is exponentiation -/
+theorem ipow_eq (b : Int) (e : Nat) : LB.ipow b e = b ^ e := by
+  unfold LB.ipow
+  split
+  · subst_vars; split
+    · subst_vars; rfl
+    · rw [Int.zero_pow (by assumption)]
+  · split
+    · subst_vars; rw [Int.one_pow]
+    · split
+      · subst_vars; rw [Arith.neg_one_pow]
+      · rfl
+
+/-- `Pow` on `LazyBigint`, on its precondition (exponent ≥ 0): exact and canonical in all four combinations -/
+theorem lbPow_correct (a b : LB) (ha : a.wf) (hb : b.wf) (hneg : 0 ≤ b.den) :
+    Correct (LB.pow a b) (a.den ^ b.den.toNat) := by
+  unfold LB.pow
+  cases a <;> cases b <;> simp only [ipow_eq] <;> lb_norm <;> (repeat' split) <;> (try lb_norm)
+  all_goals first
+    | omega
+    | (apply Arith.pow_big _ _ _ ha; omega)
+
+/-- `a ** b` of the language: a value `a^b`, canonical, whenever the two documented guards do not apply -/
+theorem pow_correct (a b : LB) (ha : a.wf) (hb : b.wf) (hneg : 0 ≤ b.den)
+    (h00 : ¬ (a.den = 0 ∧ b.den = 0)) :
+    ∃ r, IntB.pow a b = .int r ∧ r.wf ∧ r.den = a.den ^ b.den.toNat := by
+  obtain ⟨r, hr, hw, hd⟩ := lbPow_correct a b ha hb hneg
+  refine ⟨r, ?_, hw, hd⟩
+  unfold IntB.pow
+  have h1 : LB.isNegative b = false := by
+    rw [← Bool.not_eq_true, isNegative_iff]; omega
+  have h2 : (LB.isZero b && LB.isZero a) = false := by
+    rw [← Bool.not_eq_true, Bool.and_eq_true, isZero_iff b hb, isZero_iff a ha]; omega
+  rw [h1, h2, hr]; rfl
+
+theorem pow_negative_exponent (a b : LB) (hneg : b.den < 0) :
+    IntB.pow a b = .err "cannot raise integer to a negative power" := by
+  unfold IntB.pow; rw [if_pos ((isNegative_iff b).mpr hneg)]
+
+theorem pow_zero_zero (a b : LB) (ha : a.wf) (hb : b.wf) (h : a.den = 0 ∧ b.den = 0) :
+    IntB.pow a b = .err "cannot raise zero to a zero power" := by
+  unfold IntB.pow
+  have h1 : LB.isNegative b = false := by
+    rw [← Bool.not_eq_true, isNegative_iff]; omega
+  have h2 : (LB.isZero b && LB.isZero a) = true := by
+    rw [Bool.and_eq_true, isZero_iff b hb, isZero_iff a ha]; omega
+  rw [h1, h2]; rfl
+
+/-- non-vacuity: operands straddling 2^63 -/
+example : Correct (LB.mul (long 9223372036854775808) (short (-1))) (-9223372036854775808) :=
+  ⟨_, rfl, by decide, rfl⟩
+example : Correct (LB.div (short (-9223372036854775808)) (short (-1))) 9223372036854775808 :=
+  ⟨_, rfl, by decide, rfl⟩
+example : IntB.mod (short (-7)) (short 3) = .int (short 2) := by decide
 
 end XrayModel.C14
